@@ -49,6 +49,12 @@ pub struct DevState {
     pub marks: Vec<(String, usize)>,
 }
 
+impl std::fmt::Debug for MemDev {
+    fn fmt(&self, f: &mut std::fmt::Formatter<'_>) -> std::fmt::Result {
+        write!(f, "MemDev@{}", self.pos)
+    }
+}
+
 #[derive(Clone)]
 pub struct MemDev {
     pub st: Rc<RefCell<DevState>>,
@@ -71,10 +77,14 @@ impl MemDev {
     pub fn bytes(&self) -> Vec<u8> {
         self.st.borrow().data.clone()
     }
+    /// Remember the current length of the operation log under a name.
     pub fn mark(&self, name: &str) {
         let mut s = self.st.borrow_mut();
-        let n = s.ops;
+        let n = s.log.len();
         s.marks.push((name.to_string(), n));
+    }
+    pub fn fault_fired(&self) -> bool {
+        self.st.borrow().fault_fired
     }
     fn tick(&self, kind: OpKind) -> Result<()> {
         let mut s = self.st.borrow_mut();
